@@ -271,6 +271,12 @@ def amplify(ctx, case, mt, mp, model):
         ctx.count("lattice_hints_not_confirmed")
 
 
+# no result depends on the log level: a tenth of the cases runs with the package logger at DEBUG (replayable: the flag is
+# part of the case / of the recorded witness)
+_dbg_gen, _dbg_chk = env.debug_dimension(0.1)
+gen_case = _dbg_gen(gen_case)
+check_case = _dbg_chk(check_case)
+
 TECHNIQUE = "runtime monitoring: oracle over the reported best path against the raw graph after every public call of generated histories (both backends)"
 LEVEL_TEXT = ("{Q} (quick) / {T} (thorough) histories; every state of every reported best path must be a node/directed edge of the raw graph and every "
               "consecutive pair a move the graph offers; the nodes-only view must be computable, without immediate repeats and pairwise adjacent "
